@@ -99,15 +99,82 @@ func checkScript(c scriptCase, r *h.Rec) error {
 	return tr.write(file)
 }
 
+// The script uses NO model: keys come straight from the library, operations are
+// checked by the library's own round trip only. A defect that exists in one
+// configuration therefore does not stop the script there; it shows up as a
+// differing line, which is what this test is for (the model-based tests run the
+// same kinds of operation separately).
+func tSignMaster(m MK) (*signMaster, error) {
+	return cached("t-sm/"+m.String(), func() (*signMaster, error) {
+		var key *sm9.SignMasterPrivateKey
+		var err error
+		if m.Edge == 0 {
+			key, err = sm9.GenerateSignMasterKey(gen.NewDetReader(m.Seed))
+		} else {
+			key, err = sm9.UnmarshalSignMasterPrivateKeyASN1(derInt(m.scalar()))
+		}
+		if err != nil {
+			return nil, err
+		}
+		return &signMaster{key: key, pub: key.PublicKey().Bytes()[1:]}, nil
+	})
+}
+
+func tEncMaster(m MK) (*encMaster, error) {
+	return cached("t-em/"+m.String(), func() (*encMaster, error) {
+		var key *sm9.EncryptMasterPrivateKey
+		var err error
+		if m.Edge == 0 {
+			key, err = sm9.GenerateEncryptMasterKey(gen.NewDetReader(m.Seed))
+		} else {
+			key, err = sm9.UnmarshalEncryptMasterPrivateKeyASN1(derInt(m.scalar()))
+		}
+		if err != nil {
+			return nil, err
+		}
+		return &encMaster{key: key, pub: key.PublicKey().Bytes()[1:]}, nil
+	})
+}
+
+func tSignUser(m MK, uid []byte, hid byte) (*signMaster, *signUser, error) {
+	sm, err := tSignMaster(m)
+	if err != nil {
+		return nil, nil, err
+	}
+	u, err := cached(fmt.Sprintf("t-su/%v/%x/%d", m, uid, hid), func() (*signUser, error) {
+		key, err := sm.key.GenerateUserKey(uid, hid)
+		if err != nil {
+			return nil, err
+		}
+		return &signUser{key: key, ds: key.Bytes()[1:]}, nil
+	})
+	return sm, u, err
+}
+
+func tEncUser(m MK, uid []byte, hid byte) (*encMaster, *encUser, error) {
+	em, err := tEncMaster(m)
+	if err != nil {
+		return nil, nil, err
+	}
+	u, err := cached(fmt.Sprintf("t-eu/%v/%x/%d", m, uid, hid), func() (*encUser, error) {
+		key, err := em.key.GenerateUserKey(uid, hid)
+		if err != nil {
+			return nil, err
+		}
+		return &encUser{key: key, de: key.Bytes()[1:]}, nil
+	})
+	return em, u, err
+}
+
 func runScript(tr *transcript, seed uint64, uidLens []int) error {
 	masters := []MK{{Edge: 0, Seed: gen.Mix(seed, 0x7001)}, {Edge: 4, Seed: gen.Mix(seed, 0x7002)}, {Edge: 1}, {Edge: 3}, {Edge: 2}}
 	// ---- master keys
 	for i, mk := range masters {
-		sm, err := getSignMaster(mk, false)
+		sm, err := tSignMaster(mk)
 		if err != nil {
 			return err
 		}
-		em, err := getEncMaster(mk, false)
+		em, err := tEncMaster(mk)
 		if err != nil {
 			return err
 		}
@@ -137,11 +204,11 @@ func runScript(tr *transcript, seed uint64, uidLens []int) error {
 		}
 		users = append(users, user{uid, hid, mk})
 		tag := fmt.Sprintf("[uid%d/hid%d/%s]", n, hid, mk.label())
-		sm, su, err := getSignUser(mk, uid, hid, false)
+		sm, su, err := tSignUser(mk, uid, hid)
 		if err != nil {
 			return err
 		}
-		em, eu, err := getEncUser(mk, uid, hid, false)
+		em, eu, err := tEncUser(mk, uid, hid)
 		if err != nil {
 			return err
 		}
@@ -151,7 +218,7 @@ func runScript(tr *transcript, seed uint64, uidLens []int) error {
 		// signatures
 		for j, ml := range []int{1, 33 + i%200} {
 			msg := mkMsg(gen.Mix(seed, 0x7004, uint64(i)), ml)
-			sig, err := doSign(rdr(), sm, su, uid, hid, msg, j)
+			sig, err := doSignM(rdr(), sm, su, uid, hid, msg, j, false)
 			if err != nil {
 				return err
 			}
@@ -168,7 +235,7 @@ func runScript(tr *transcript, seed uint64, uidLens []int) error {
 			klens = append(klens, 97, 128, 129, 161, 193, 225, 257, 289)
 		}
 		for j, kl := range klens {
-			key, cipher, err := doWrap(rdr(), em, eu, uid, hid, kl, i+j)
+			key, cipher, err := doWrapM(rdr(), em, eu, uid, hid, kl, i+j, false)
 			if err != nil {
 				return err
 			}
@@ -182,7 +249,7 @@ func runScript(tr *transcript, seed uint64, uidLens []int) error {
 		}
 		for j, x := range []e{{modeXOR, false, 65 + i%60}, {modeXOR, true, 200 + i%100}, {blockModes[i%4], i%2 == 0, 1 + (3*i)%80}, {blockModes[(i+1)%4], i%2 == 1, 47 + i%3}} {
 			msg := mkMsg(gen.Mix(seed, 0x7005, uint64(i), uint64(j)), x.ml)
-			ct, err := doEncrypt(rdr(), em, eu, uid, hid, msg, x.mode, x.asn1, i+j)
+			ct, err := doEncryptM(rdr(), em, eu, uid, hid, msg, x.mode, x.asn1, i+j, false)
 			if err != nil {
 				return err
 			}
@@ -202,11 +269,11 @@ func runScript(tr *transcript, seed uint64, uidLens []int) error {
 			return fmt.Errorf("harness: users %d and %d have different masters", i, i+step)
 		}
 		hid := a.hid
-		_, ua, err := getEncUser(a.mk, a.uid, hid, false)
+		_, ua, err := tEncUser(a.mk, a.uid, hid)
 		if err != nil {
 			return err
 		}
-		_, ub, err := getEncUser(a.mk, b.uid, hid, false)
+		_, ub, err := tEncUser(a.mk, b.uid, hid)
 		if err != nil {
 			return err
 		}
